@@ -79,7 +79,7 @@ pub fn apply_at(
         SubstitutionSubtables::Alternate(sts) => {
             for st in sts.iter() {
                 let Some(st) = ap.chk(st, &what) else { continue };
-                if let Some(n) = alternate(ap, &st, buf, pos, 0) {
+                if let Some(n) = alternate(ap, &st, buf, pos, ap.alternate_index) {
                     return Some(n);
                 }
             }
